@@ -2993,7 +2993,7 @@ class Entity(MutableMapping[str, str]):
 
         # Update the by_class/target dicts with our new value
         if key_fold == 'classname':
-            _remove_copyset(self.map.by_class, orig_val or '', self)
+            _remove_copyset(self.map.by_class, (orig_val or '').casefold(), self)
             if self in self.map.entities:
                 self.map.by_class[str_val.casefold()].add(self)
             elif self is self.map.spawn:
